@@ -38,7 +38,7 @@ CHECKS["C14"] = dict(
 
 CHECKS["C18"] = dict(
     technique="PackTables.tla (publish-only layout history, item well-formedness in BitField terms) model-checked with an editing negative control; complete extraction of all shipped modules judged by TLC (C18_Judge) incl. the immutability step from the layout pinned at the audited commit",
-    text="Every item of all 164 modules is extracted through real table/accessor objects and judged by TLC for well-formedness (bytes inside the block, bit field inside its bytes, labels representable), every advertised key list must name items, module names must agree with declared platform/version and with the FILES naming decoded by the real config-file handler for all 895 combinations, and each of the 20 669 pinned keys must be unchanged (ImmutableStep).",
+    text="Every item of all 164 modules is extracted through real table/accessor objects and judged by TLC for well-formedness (bytes inside the block, bit field inside its bytes, labels representable), every advertised key list must name items, module names must agree with declared platform/version and with the FILES naming decoded by the real config-file handler for all 895 combinations, and each of the 20 669 pinned keys must be unchanged (ImmutableStep). Both clients' real handshakes against a spa reporting a given file naming must load exactly the designated modules; the generator tests/packgen.py is exercised by regenerating every shipped table from its own declarations with the real generator functions and comparing layouts.",
     note="Trusted: TLC, the extractor (attribute reads), pins/pack_layout.json.gz generated from commit 236b7b1. Known findings: three ill-formed entries (D12), recorded by item key.",
     design="§4 C18")
 
